@@ -3,6 +3,7 @@ import KrakenModel.Model.ForceCleanup
 import KrakenModel.Proof.C10
 import KrakenModel.Proof.C10Pass
 import KrakenModel.Proof.C10Inv
+import KrakenModel.Proof.C10Evict
 /-
   C10  Files awaiting write-back are never deleted; cleanup removes exactly idle files.
 
@@ -99,6 +100,140 @@ theorem persisted_survives (ops : List Op) (n : Name) (hnc : ∀ o ∈ ops, ¬ c
     intro s h
     exact ih (fun o' ho' => hnc o' (List.mem_cons_of_mem _ ho')) _
       (persisted_survives_step s o n h (hnc o List.mem_cons_self))
+
+/-! ### (1c) inside an eviction: every interleaving -/
+
+/-- what the eviction in flight has decided is consistent with the flags: it never plans to remove a
+protected file -/
+def EvOK (x : XState) : Prop := ∀ m, x.ev = .decided m true → ¬ Protected x.s m
+
+theorem touches_persist (m : Name) : (Op.persist m true).touches m = true := by simp [Op.touches]
+
+theorem xstep_safe (x : XState) (a : Act) (n : Name) (hp : Protected x.s n) (hev : EvOK x)
+    (hc : ∀ o, a = .api o → ¬ clears o n) :
+    Protected (xstep .unmapLast x a).s n ∧ EvOK (xstep .unmapLast x a) := by
+  cases a with
+  | insert k size =>
+    simp only [xstep]
+    split
+    · exact ⟨hp, hev⟩
+    · rename_i hfresh
+      have hnf : KV.has x.s.files k = false := by
+        cases h : KV.has x.s.files k with
+        | false => rfl
+        | true => simp [h] at hfresh
+      refine ⟨?_, ?_⟩
+      · have hne : n ≠ k := by
+          intro e; subst e
+          obtain ⟨f, hf, _⟩ := hp
+          simp [KV.has, hf] at hnf
+        obtain ⟨f, hf, hpp⟩ := hp
+        exact ⟨f, by simpa [createInsert, KV.get_put_ne _ _ hne] using hf, hpp⟩
+      · intro m hm hpm
+        refine hev m hm ?_
+        have : Evict.NoNew x.s (createInsert x.s k size) m := by
+          unfold createInsert
+          exact (Evict.noNew_put (s := x.s) _ (fun _ h => by cases h)).trans (Evict.NoNew.of_files rfl)
+        exact this hpm
+  | begin =>
+    simp only [xstep]
+    cases hx : x.ev with
+    | idle =>
+      simp only
+      split
+      · exact ⟨hp, hev⟩
+      · split
+        · exact ⟨hp, hev⟩
+        · simp only [if_neg (by decide : ¬ Order.unmapLast = Order.unmapFirst)]
+          exact ⟨hp, fun m hm => by cases hm⟩
+    | locked m => exact ⟨hp, hev⟩
+    | decided m d => exact ⟨hp, hev⟩
+  | check =>
+    simp only [xstep]
+    cases hx : x.ev with
+    | idle => exact ⟨hp, hev⟩
+    | decided m d => exact ⟨hp, hev⟩
+    | locked m =>
+      simp only
+      refine ⟨hp, ?_⟩
+      intro m' hm'
+      simp only [Ev.decided.injEq] at hm'
+      obtain ⟨e, hd⟩ := hm'
+      subst e
+      rintro ⟨f, hf, hpf⟩
+      simp [hf, isPersisted, hpf] at hd
+  | finish =>
+    simp only [xstep]
+    cases hx : x.ev with
+    | idle => exact ⟨hp, hev⟩
+    | locked m => exact ⟨hp, hev⟩
+    | decided m d =>
+      simp only
+      refine ⟨?_, fun m' hm' => by cases hm'⟩
+      cases d with
+      | false => exact prot_files hp rfl
+      | true =>
+        have hne : n ≠ m := fun e => hev m (by rw [hx]) (e ▸ hp)
+        simp only [if_true]
+        exact prot_files (prot_del_ne (s := x.s) hp hne) rfl
+  | api o =>
+    simp only [xstep]
+    have hstep : Protected (step x.s o) n := persisted_survives_step x.s o n hp (hc o rfl)
+    cases hn : x.ev.name with
+    | none =>
+      simp only
+      refine ⟨hstep, ?_⟩
+      intro m hm
+      cases hx : x.ev with
+      | idle => simp [hx] at hm
+      | locked k => simp [hx, Ev.name] at hn
+      | decided k d => simp [hx, Ev.name] at hn
+    | some k =>
+      simp only
+      split
+      · exact ⟨hp, hev⟩
+      · rename_i ht
+        refine ⟨hstep, ?_⟩
+        intro m hm hpm
+        have hmk : m = k := by
+          cases hx : x.ev with
+          | idle => simp [hx] at hm
+          | locked j => simp [hx] at hm
+          | decided j d => simp [hx, Ev.name] at hn hm; rw [← hn, hm.1]
+        subst hmk
+        refine hev m hm ?_
+        refine Evict.step_noNew x.s o m ?_ hpm
+        intro e
+        rw [e, touches_persist] at ht
+        exact ht rfl
+
+/-- **C10 (1c)** With the eviction's steps — lock the oldest entry, check its persist flag, remove its
+directory, drop it from the map — interleaved in any way with any store operations of other goroutines
+(operations that need the locked entry wait, as in the code), a file whose persist flag is set is never
+removed: the schedule `acts` is arbitrary, only clearing the flag of `n` itself is excluded. -/
+theorem eviction_interleaving_safe (acts : List Act) (n : Name) (hnc : ∀ a ∈ acts, ∀ o, a = .api o → ¬ clears o n) :
+    ∀ x : XState, Protected x.s n → EvOK x → Protected (xrun .unmapLast x acts).s n := by
+  induction acts with
+  | nil => intro x h _; exact h
+  | cons a acts ih =>
+    intro x h hev
+    have := xstep_safe x a n h hev (hnc a List.mem_cons_self)
+    exact ih (fun a' ha' => hnc a' (List.mem_cons_of_mem _ ha')) _ this.1 this.2
+
+/-- the schedule that breaks the variant which drops the entry from the map *before* deleting its file:
+two files into a map of capacity 1, the eviction of the older one starts and finds it unprotected, another
+goroutine marks it persist (it finds no entry, loads a second one and is acknowledged), the eviction removes
+the directory -/
+def swapWitness : List Act :=
+  [.insert "aa01" 3, .insert "ab02" 5, .begin, .check, .api (.persist "aa01" true), .finish]
+
+/-- **C10 (1c')** Order matters: with the entry dropped from the map first the same interleaving semantics
+loses a file that was marked — and acknowledged — as awaiting write-back; with the code's order the same
+schedule makes the flag change wait and report that the file is gone. -/
+theorem unmapFirst_loses_persisted :
+    Protected (xrun .unmapFirst { s := init 1 0 } (swapWitness.take 5)).s "aa01" ∧
+    KV.get (xrun .unmapFirst { s := init 1 0 } swapWitness).s.files "aa01" = none ∧
+    ¬ Protected (xrun .unmapLast { s := init 1 0 } (swapWitness.take 5)).s "aa01" := by decide
 
 /-! ## (2) a normal pass removes exactly the idle, unprotected files -/
 
